@@ -96,11 +96,35 @@ OnOffClause(o) == IF Ok(o.off.e) /\ ~Ok(o.on.e) THEN <<"V", "validation-on-refus
                   ELSE IF Ok(o.on.e) /\ Ok(o.off.e) /\ o.on.b # o.off.b THEN <<"V", "validation-on-changes-the-bytes">>
                   ELSE NONE
 
+(* Absolute memory operands (no base register): which address values the row has (SDM vol.2 2.1.5 / 2.2.1.3, MOV moffs).        *)
+(*   32-bit mode: any 32-bit value.  64-bit mode, forced absolute: a moffs row takes any 64-bit address (A0..A3 with a 64-bit     *)
+(*   offset); a ModRM row takes [disp32] sign-extended, or zero-extended with the 67h prefix - with an index register only when    *)
+(*   that index is a 32-bit register.  Default / relative address type in 64-bit mode denotes a target relative to the (unknown)   *)
+(*   base address of the code: decided only for small (sign-extended 32-bit) values, as before.                                  *)
+S32(d) == \/ (d[5] = 0 /\ d[6] = 0 /\ d[7] = 0 /\ d[8] = 0 /\ d[4] < 128)
+          \/ (d[5] = 255 /\ d[6] = 255 /\ d[7] = 255 /\ d[8] = 255 /\ d[4] >= 128)
+U32(d) == d[5] = 0 /\ d[6] = 0 /\ d[7] = 0 /\ d[8] = 0
+AddrClassOp(fo, oo, mode) ==
+  IF ~(oo.t = "m" /\ oo.bt = "") THEN "ok"
+  ELSE IF mode = 32 THEN (IF oo.at = 2 THEN "undecided" ELSE IF S32(oo.d) \/ U32(oo.d) THEN "ok" ELSE "no")
+  ELSE IF oo.at # 1 THEN (IF S32(oo.d) THEN "ok" ELSE "undecided")
+  ELSE IF fo.moff /\ oo.it = "" THEN "ok"
+  ELSE IF oo.it = "" \/ oo.it = "gpd" THEN (IF S32(oo.d) \/ U32(oo.d) THEN "ok" ELSE "no")
+  ELSE IF S32(oo.d) THEN "ok" ELSE "no"
+AddrClass(f, o) == LET al == Align(f, o)
+                       cs == {AddrClassOp(f.ops[al[j]], o.ops[j], o.m) : j \in 1..Len(o.ops)}
+                   IN IF "no" \in cs THEN "no" ELSE IF "undecided" \in cs THEN "undecided" ELSE "ok"
+
 (* a vendored (row, mode) must keep being accepted by validator and encoder, with the same bytes *)
 BaseVerdict(o) ==
   LET f == Forms[o.f] IN
   IF ~o.known THEN (IF o.impl THEN <<"V", "vendored-form-name-no-longer-known">> ELSE <<"U", "mnemonic-unknown-to-this-release">>)
   ELSE IF ~OnlyKnownOptions(o) \/ ~Admits(f, o) THEN <<"U", "instance-does-not-fit-its-own-row">>
+  ELSE IF AddrClass(f, o) = "undecided" THEN <<"U", "address-class-not-decided-by-the-database">>
+  ELSE IF AddrClass(f, o) = "no" THEN
+       (IF Ok(o.v) /\ Ok(o.on.e) THEN <<"I", "address-outside-the-form-accepted-by-validator-and-encoder">>
+        ELSE IF Ok(o.off.e) THEN <<"I", "address-outside-the-form-accepted-by-the-plain-encoder">>
+        ELSE NONE)
   ELSE IF o.impl THEN
        (IF ~Ok(o.v) THEN <<"V", "vendored-form-refused-by-validator">>
         ELSE IF ~Ok(o.off.e) THEN <<"V", "vendored-form-refused-by-encoder">>
@@ -229,8 +253,15 @@ A64ProbeVerdict(o) ==
 
 (* AArch64: one mode, InstAPI::validate has no operand validator in the pinned release (it answers Ok); the invariants  *)
 (* reduce to: a vendored form keeps being accepted, and validation on/off changes nothing                             *)
+(* a value instance of a row (shift amount, lane number, hw slot, condition ...) is a database instance iff the field rules of   *)
+(* C02's specification give every field a value: A64Enc!Refused                                                             *)
+A64E == INSTANCE A64Enc
+A64EncRows == IF "A64ENCROWS" \in DOMAIN IOEnv THEN JsonDeserialize(IOEnv.A64ENCROWS) ELSE <<>>
+
 A64Verdict(o) ==
   IF o.kind = "probe" THEN A64ProbeVerdict(o)
+  ELSE IF o.kind = "base" /\ o.ix > 0 /\ A64E!Refused(A64EncRows[o.r], o.o)
+       THEN <<"U", "value-outside-the-field-domain-of-the-row">>
   ELSE IF ~o.known THEN (IF o.impl THEN <<"V", "vendored-form-name-no-longer-known">> ELSE <<"U", "mnemonic-unknown-to-this-release">>)
   ELSE IF o.kind = "base" THEN
        (IF o.impl THEN (IF ~Ok(o.v) THEN <<"V", "vendored-form-refused-by-validator">>
